@@ -243,6 +243,12 @@ def run(rep: common.Report, tier: str, seed: int, replay=None) -> int:
                 newp = os.path.join(td, f"m{mi}_saved.h5")
                 sol.to_hdf5(newp)
                 loaded = tdgl.Solution.from_hdf5(newp)
+                # the documented option save_mesh=False: the file is smaller, the solution loads back all the same
+                nomesh = os.path.join(td, f"m{mi}_nomesh.h5")
+                sol.to_hdf5(nomesh, save_mesh=False)
+                lm = tdgl.Solution.from_hdf5(nomesh)
+                if not lm.equals(sol) or same_mesh(lm.device.mesh, sol.device.mesh) or not (lm.tdgl_data == sol.tdgl_data):
+                    rep.violation("a solution saved with save_mesh=False does not load back equal to the original", case)
             except Exception as e:  # noqa: BLE001
                 if isinstance(e, RuntimeError) and ("exactly singular" in str(e) or "Screening calculation failed to converge" in str(e)):
                     rep.coverage["runs_refused_singular_factor"] = rep.coverage.get("runs_refused_singular_factor", 0) + 1
@@ -273,6 +279,24 @@ def run(rep: common.Report, tier: str, seed: int, replay=None) -> int:
             rep.count(1)
             rep.nontrivial(("memory-solution", mode, scr))
 
+        # per-step records of a device WITHOUT probe points, stored on their own and read back
+        try:
+            from tdgl.solution.data import DynamicsData as _DD0
+            dnp = dev.copy(with_mesh=True)
+            dnp.probe_points = None
+            snp = tdgl.solve(dnp, runs.make_options(None, solve_time=0.02, dt_init=2e-3, dt_max=4e-3, output_file=os.path.join(td, "noprobe.h5")),
+                             applied_vector_potential=0.2, terminal_currents={"source": 1.0, "drain": -1.0})
+            with h5py.File(os.path.join(td, "dyn_noprobe.h5"), "w") as f_:
+                snp.dynamics.to_hdf5(f_.create_group("dynamics"))
+            with h5py.File(os.path.join(td, "dyn_noprobe.h5"), "r") as f_:
+                dbk = _DD0.from_hdf5(f_["dynamics"])
+            badn = same_dynamics(dbk, snp.dynamics)
+            if badn or len(dbk.dt) == 0:
+                rep.violation(f"per-step records of a run without probe points do not survive DynamicsData.to_hdf5 / from_hdf5 ({badn})", {})
+        except Exception as e:  # noqa: BLE001
+            if not (isinstance(e, RuntimeError) and "exactly singular" in str(e)):
+                rep.violation(f"DynamicsData round trip without probe points raised {type(e).__name__}: {e}"[:200], {})
+        rep.count(1)
         # ---------- devices ----------
         for di in range(8 if tier == "quick" else 40):
             # layer parameters include the falsy-but-valid corner values (gamma = 0: plain TDGL; z0 = 0; conductivity None / set)
